@@ -7,10 +7,63 @@
 //! failed finish, which drops it), then [live chunks, live bytes, every slice in live memory].
 use crate::iovw::{leak, World};
 use crate::util::*;
-use hcobs::verif_hooks::ParamDecoder;
+use hcobs::verif_hooks::{prod_params, ParamDecoder};
+use hcobs::{Decoder, DecodingError};
+use owning_iovec::AnchoredSlice;
 use owning_iovec::OwningIovec;
 use std::io::Read;
 use std::num::NonZeroUsize;
+
+/// The real `Decoder` at the production limits, the hook wrapper (same code, caller-chosen limits) otherwise.
+enum Dec {
+    Real(Decoder<'static>),
+    Param(ParamDecoder<'static>),
+}
+impl Dec {
+    fn new(mi: usize, ms: usize) -> Dec {
+        if (mi, ms) == prod_params() {
+            Dec::Real(Decoder::new())
+        } else {
+            Dec::Param(ParamDecoder::new(mi, ms))
+        }
+    }
+    fn iovec(&mut self) -> &mut OwningIovec<'static> {
+        match self {
+            Dec::Real(d) => d.verif_iovec(),
+            Dec::Param(d) => d.iovec(),
+        }
+    }
+    fn state(&self) -> (u8, usize, bool) {
+        match self {
+            Dec::Real(d) => d.verif_state(),
+            Dec::Param(d) => d.state(),
+        }
+    }
+    fn decode(&mut self, d: &'static [u8]) -> Result<(), DecodingError> {
+        match self {
+            Dec::Real(x) => x.decode(d),
+            Dec::Param(x) => x.decode(d),
+        }
+    }
+    fn decode_copy(&mut self, d: &[u8]) -> Result<(), DecodingError> {
+        match self {
+            Dec::Real(x) => x.decode_copy(d),
+            Dec::Param(x) => x.decode_copy(d),
+        }
+    }
+    fn decode_anchored(&mut self, s: AnchoredSlice) -> Result<(), DecodingError> {
+        match self {
+            Dec::Real(x) => x.decode_anchored(s),
+            Dec::Param(x) => x.decode_anchored(s),
+        }
+    }
+    fn finish(self) -> Result<OwningIovec<'static>, DecodingError> {
+        match self {
+            Dec::Real(x) => x.finish(),
+            Dec::Param(x) => x.finish(),
+        }
+    }
+}
 
 pub fn run(line: &str) -> Obs {
     let t: Vec<&str> = line.split_whitespace().collect();
@@ -18,7 +71,7 @@ pub fn run(line: &str) -> Obs {
     let ms: usize = t[1].parse().unwrap();
     let mut w = World::fresh();
     let mut obs: Obs = Vec::new();
-    let mut dec: Option<ParamDecoder<'static>> = Some(ParamDecoder::new(mi, ms));
+    let mut dec: Option<Dec> = Some(Dec::new(mi, ms));
     let mut done: Option<OwningIovec<'static>> = None;
     let mut toks: Vec<&str> = vec!["new"];
     toks.extend(&t[2..]);
